@@ -6,6 +6,7 @@ import (
 	"strconv"
 	"strings"
 	"sync"
+	"unicode"
 
 	"verif/harness/core"
 	"verif/harness/gen"
@@ -450,7 +451,7 @@ func runC10(c *core.Ctx) {
 		}
 		k := NewWalker(w, gen.NameOpts{MaxDepth: 1, N: 3}, wts)
 		k.Hostile = 6
-		k.BranchNames = []string{"main", "a", "ab", "b", "a.b", "a-b", "z", "m", "ma", "main2", "A", "0", "x_y", "v1.0", "zz-top", "Main", ".hotfix", ".a", "_", "a.", "..b", "1", "-x-"[1:], ".", ".."}
+		k.BranchNames = []string{"main", "a", "ab", "b", "a.b", "a-b", "z", "m", "ma", "main2", "A", "0", "x_y", "v1.0", "zz-top", "Main", ".hotfix", ".a", "_", "a.", "..b", "1", "-x-"[1:], ".", "..", "main.lock", "a.lock", "m_", "MAIN", "mAin", "A.B"}
 		k.Init()
 		if w.Hist%7 != 0 {
 			k.Do("commit-all")
@@ -600,6 +601,7 @@ func runC14(c *core.Ctx) {
 		}
 		k := NewWalker(w, gen.NameOpts{MaxDepth: 2, N: 4}, wts)
 		k.Hostile = 3
+		k.BranchNames = append(k.BranchNames, "wip ", "wip", " wip", "dev ", "HEAD", "main.lock")
 		k.Init()
 		if w.Hist%3 == 0 {
 			name, email, _ := gen.Identity(w.Rng)
@@ -734,15 +736,29 @@ func (C20Mon) After(w *core.World, st *core.Step) {
 	switch st.Cmd() {
 	case "config":
 		pa := ParseArgv(st.Argv)
-		if !pa.OnlyFlags("--global") || len(pa.Pos) != 2 || st.Exit != 0 {
+		if !pa.OnlyFlags("--global") || len(pa.Pos) != 2 {
 			return
 		}
 		_, global := pa.Flag("--global")
 		sk := strings.Split(pa.Pos[0], ".")
-		if len(sk) != 2 {
+		if len(sk) != 2 || sk[0] == "" || sk[1] == "" {
 			return
 		}
 		val := pa.Pos[1]
+		if st.Exit != 0 {
+			// a value of printable characters with inner single spaces must be accepted
+			printable := val != "" && strings.TrimSpace(val) == val && !strings.Contains(val, "  ")
+			for _, r := range val {
+				if !unicode.IsPrint(r) {
+					printable = false
+				}
+			}
+			if printable && pre.LocalErr == nil && pre.GlobalErr == nil {
+				c.Oracle("C20.file-roundtrip")
+				w.Fail("C20.file-roundtrip", "valid-value-refused", "value:"+valueClass(val), "%s was refused although the value is made of printable characters: %s", st.String(), clipS(firstLine(st.Stdout+st.Stderr), 160))
+			}
+			return
+		}
 		if pre.LocalErr != nil || pre.GlobalErr != nil {
 			return
 		}
@@ -824,10 +840,9 @@ func (C20Mon) After(w *core.World, st *core.Step) {
 }
 
 var c20Values = []string{
-	"plain", "two words", "a=b", "a=b=c", "=lead", "trail=", "[x]", "[", "]", "#hash", "a #b", "\"quoted\"", "it's", "é ü", "日本 語", "a;b", "k = v", "x[0]=1",
-	"C:/path/to", "100%", "a,b", "(paren)", "{brace}", "~tilde", "!bang", "@at", "$var", "^caret", "&amp", "*star", "+plus", "|pipe", "<lt", ">gt", "?q", "`tick`",
+	"plain", "two words", "a=b", "a=b=c", "=lead", "trail=", "[x]", "[", "]", "#hash", "a #b", "\"quoted\"", "it's", "é ü", "日本 語", "a;b", "k = v", "x[0]=1", "Łódź", "привет мир", "😀", "ÀÁÂ", "C:/path/to", "100%", "a,b", "(paren)", "{brace}", "~tilde", "!bang", "@at", "$var", "^caret", "&amp", "*star", "+plus", "|pipe", "<lt", ">gt", "?q", "`tick`",
 }
-var c20Names = []string{"Alice", "Alice B", "A=B", "a=b=c", "[bot]", "#1 dev", "O'Neil", "\"Q\"", "José Núñez", "山田 太郎", "x]y", "Dr. X (PhD)", "a>b"}
+var c20Names = []string{"Łukasz", "Пётр", "Àgnes", "dev 😀", "Alice", "Alice B", "A=B", "a=b=c", "[bot]", "#1 dev", "O'Neil", "\"Q\"", "José Núñez", "山田 太郎", "x]y", "Dr. X (PhD)", "a>b"}
 var c20Emails = []string{"a@example.com", "first.last@sub.example.org", "x_y+tag@a-b.co", "u@d.io"}
 
 func runC20(c *core.Ctx) {
